@@ -161,6 +161,14 @@ package types
 //@       (>= (* (Amt (stream.Stream.Deposit x)) 1000000000) (* (stream.Stream.FlowRate x) (- (t.ns (stream.Stream.DepositZeroTime x)) (t.ns (stream.Stream.LastOutflowTime x)))))))
 //@ (define-fun STR_RATE ((s (Array stream.Key (Slice Int)))) Bool
 //@   (forall ((r BytesV) (sd BytesV)) (! (=> (strHas s r sd) (rateOK (strGet s r sd))) :pattern ((select s (kStream r sd))))))
+//@ ; time discipline (block time is monotone): no release lies in the future, and an empty stream is not advertised as funded
+//@ (define-fun STR_TIME ((s (Array stream.Key (Slice Int))) (now Int)) Bool
+//@   (forall ((r BytesV) (sd BytesV)) (! (=> (strHas s r sd)
+//@      (and (<= (t.ns (stream.Stream.LastOutflowTime (strGet s r sd))) now)
+//@           (=> (= (Amt (stream.Stream.Deposit (strGet s r sd))) 0) (<= (t.ns (stream.Stream.DepositZeroTime (strGet s r sd))) now))))
+//@      :pattern ((select s (kStream r sd))))))
+//@ (define-fun NS () Int 1000000000)
+//@ (define-fun MAXDUR () Int 9223372036)
 //@ end
 
 //@ global ParamsKey abstracts str_key(ParamsKey) == kSParams
